@@ -8,20 +8,25 @@ attributes (objects, whole or partial strings, ``from __future__ import annotati
 module-level classes, classes nested in the enclosing class, names imported under ``if TYPE_CHECKING:`` only, type
 parameters (PEP 695), undefined names, or are no expression at all; non-literal defaults; functools.wraps / identity
 decorators, cached properties; imports from the standard library (Python and C implemented, classes, functions, modules,
-plain values).
+plain values); wildcard imports between the modules (absolute and relative, chains, out of and into a sub-package, of a
+package, before / between / after single-name imports, colliding with a local definition either way) from modules whose
+``__all__`` is absent, empty (list, tuple, annotated), a list / tuple / annotated literal, grown with ``+=``, composed from
+another module's ``__all__``, and lists private, dunder, imported and wildcard-imported names.
 Oracle: each package (unique name) is loaded statically and with ``force_inspection=True`` in
 this child; normalised skeletons are compared, allowed differences are removed *by rule*
 (dunder names the source does not assign, instance attributes, attribute docstrings, line
 numbers, label vocabulary, origin of imported plain values).  Third leg: ``inspect.signature``
 of the really imported objects.  Imports from outside the package are arbitrated by CPython (both target paths
 must reach the same object; only plain values may lose their origin); names bound under ``if TYPE_CHECKING:`` only are a
-static-only difference removed by a syntactic rule.
+static-only difference removed by a syntactic rule.  For every module body the static member names are also compared
+with the namespace CPython built by running the module (what a wildcard import really bound).
 """
 from __future__ import annotations
 
 import ast
 import functools
 import importlib
+import importlib.util
 import inspect
 import random
 import sys
@@ -32,10 +37,11 @@ from vf.core.util import case_watchdog, tmp_tree
 PROP = "C17"
 LEVEL = "exploration"
 ANCHORS = ["agents/inspector.py", "agents/nodes/runtime.py", "importer.py"]
-RULE = ("generated importable packages (init + 2-3 modules): functions over random parameter lists (all five kinds, defaults, "
+RULE = ("generated importable packages (init + 2-3 modules, optional sub-package with 1-2 modules): functions over random parameter lists (all five kinds, defaults, "
         "annotations as objects / strings / under the annotations future import, resolvable at module level or not: nested "
         "classes, TYPE_CHECKING-only imports, type parameters, undefined names, non-expressions; return annotations; wraps and "
-        "identity decorators; standard-library imports), classes with instance/static/class methods, properties, nested classes, single and cross-module "
+        "identity decorators; standard-library imports; wildcard imports over every __all__ shape, chains, sub-packages, "
+        "name collisions), classes with instance/static/class methods, properties, nested classes, single and cross-module "
         "inheritance, literal module/class attributes, __init__ with instance attributes, docstrings, imports of classes/"
         "functions/modules/plain values between the modules. distinct = digest of files; non-trivial = package with "
         "inheritance, a property and an intra-package import")
@@ -50,7 +56,11 @@ TECHNIQUE = "runtime monitoring: differential oracle (visitor vs inspector vs in
 REQUIRED_COUNTERS = ["packages_compared", "members_compared", "functions_compared", "signatures_vs_cpython", "classes_compared",
                      "docstrings_compared", "aliases_compared", "functions_compared_annotated", "functions_compared_str_annotation",
                      "functions_compared_str_annotation_unevaluable", "functions_compared_return_annotation",
-                     "functions_compared_wrapped", "external_imports_compared"]
+                     "functions_compared_wrapped", "external_imports_compared", "module_namespaces_vs_cpython",
+                     "wildcard_imports_compared", "wildcard_source_all_absent", "wildcard_source_all_empty",
+                     "wildcard_source_all_nonempty", "wildcard_source_all_augmented", "wildcard_source_all_composed",
+                     "wildcard_source_all_lists_private", "wildcard_chain", "wildcard_of_package", "wildcard_in_subpackage",
+                     "wildcard_name_also_bound_locally"]
 EXHAUSTIVE = {"quick": False, "thorough": False}
 ASSUMPTIONS = ["generated code has no import-time side effects; packages get unique names and are purged from sys.modules"]
 KIND_TXT = {c02.PO: "positional-only", c02.PK: "positional or keyword", c02.VP: "variadic positional", c02.KO: "keyword-only",
@@ -222,7 +232,93 @@ def gen_class(rng: random.Random, sc: Scope, name: str, bases: list[str], deco: 
     return src
 
 
-def gen_module(rng: random.Random, name: str, m: str, prevs: list[str], exported: dict) -> tuple[str, list[tuple[str, str]]]:  # noqa: C901, PLR0912, PLR0915
+class Mod:
+    """A module of the generated package: dotted path below the package root, identifier-safe tag for member names."""
+
+    def __init__(self, path: str, tag: str, is_pkg: bool = False) -> None:
+        self.path, self.tag, self.is_pkg = path, tag, is_pkg
+        self.parts = path.split(".")
+        self.pkg_parts = self.parts if is_pkg else self.parts[:-1]
+        self.exported: list[tuple[str, str]] = []   # names a later module may import explicitly
+        self.star: list[tuple[str, str]] = []       # names `from <this> import *` binds for sure (with their kinds)
+        self.all: list[str] | None = None           # value of __all__ once the module ran, None when absent
+        self.all_is_list = True
+
+
+def rel_import(cur: Mod, target: Mod) -> str:
+    """Relative spelling (``.a``, ``..a``, ``.sub.x``) of `target` as seen from `cur`."""
+    common = 0
+    while common < min(len(cur.pkg_parts), len(target.parts)) and cur.pkg_parts[common] == target.parts[common]:
+        common += 1
+    return "." * (len(cur.pkg_parts) - common + 1) + ".".join(target.parts[common:])
+
+
+def gen_all(rng: random.Random, name: str, mod: Mod, names: list[str], wild: list[Mod]) -> tuple[str, str, str]:  # noqa: C901, PLR0912
+    """The ``__all__`` of a module: (import line needed, text for the top, text for the bottom of the module).
+
+    Every shape griffe documents as supported and CPython accepts: absent, empty (list, tuple, annotated), list / tuple /
+    annotated literal, literal then ``+=``, composed from the ``__all__`` of a module whose names were all imported here
+    (through a wildcard import). Listed names always exist in the module (CPython refuses a wildcard import otherwise), but
+    they may be private, dunder, imported, or sub-modules.
+    """
+    shape = rng.choice(["absent"] * 7 + ["empty"] * 4 + ["literal"] * 5 + ["augmented"] * 2 + ["composed"] * 3)
+    composable = [w for w in wild if w.all is not None]
+    if shape == "composed" and not composable:
+        shape = "literal"
+    if shape == "absent" or (not names and shape != "empty"):
+        mod.all = None
+        return "", "", ""
+    pick = rng.sample(names, rng.randint(1, len(names))) if names else []
+    lit = lambda xs, tup=False: ("(" + ", ".join(map(repr, xs)) + ("," if len(xs) == 1 else "") + ")") if tup else "[" + ", ".join(map(repr, xs)) + "]"  # noqa: E731
+    imp = top = bottom = ""
+    if shape == "empty":
+        mod.all = []
+        txt = rng.choice(["__all__ = []", "__all__ = ()", "__all__: list[str] = []", "__all__: tuple = ()", "__all__ = list()"][:4])
+        mod.all_is_list = "[" in txt.split("=")[1]
+        top = txt + "\n"
+    elif shape == "literal":
+        mod.all = pick
+        tup = rng.random() < 0.3
+        mod.all_is_list = not tup
+        ann = rng.choice(["", "", ": list[str]" if not tup else ": tuple"])
+        top = f"__all__{ann} = {lit(pick, tup)}\n"
+    elif shape == "augmented":
+        cut = rng.randint(0, len(pick))  # 0: starts empty, grows later
+        mod.all = pick
+        top = f"__all__ = {lit(pick[:cut])}\n"
+        rest = pick[cut:]
+        mid = rng.randint(0, len(rest))
+        bottom = "".join(f"__all__ += {lit(part, rng.random() < 0.3)}\n" for part in (rest[:mid], rest[mid:]) if part)
+        bottom = bottom or "__all__ += []\n"
+    else:
+        src_mod = rng.choice(composable)
+        extras = [n for n in pick if n not in src_mod.all][:3]
+        mod.all = [*src_mod.all, *extras]
+        form = rng.random()
+        if form < 0.5:
+            var = f"_{src_mod.tag}_all"
+            how = rng.random()
+            imp = (f"from {name}.{src_mod.path} import __all__ as {var}\n" if how < 0.5 else f"from {rel_import(mod, src_mod)} import __all__ as {var}\n")
+            ref = var
+        else:
+            var = f"_{src_mod.tag}_m"
+            imp = f"import {name}.{src_mod.path} as {var}\n"
+            ref = f"{var}.__all__"
+        r = rng.random()
+        if r < 0.35 and src_mod.all_is_list:
+            top = f"__all__ = {ref} + {lit(extras)}\n"
+        elif r < 0.7:
+            top = f"__all__ = [*{ref}, {', '.join(map(repr, extras))}]\n" if extras else f"__all__ = [*{ref}]\n"
+        else:
+            top = f"__all__ = [{', '.join(map(repr, extras))}{', ' if extras else ''}*{ref}]\n"
+            mod.all = [*extras, *src_mod.all]
+    if rng.random() < 0.5 and not bottom:
+        top, bottom = "", top  # __all__ at the end of the module
+    return imp, top, bottom
+
+
+def gen_module(rng: random.Random, name: str, mod: Mod, prevs: list[Mod]) -> str:  # noqa: C901, PLR0912, PLR0915
+    m = mod.tag
     src = f'"""Module {m}."""\n' if rng.random() < 0.7 else ""
     future = rng.random() < 0.3
     if future:
@@ -245,30 +341,53 @@ def gen_module(rng: random.Random, name: str, m: str, prevs: list[str], exported
     src += "".join(ln + "\n" for ln in lines)
     for _, anns in stmts:
         evaluable += anns
-    # imports from earlier modules
+    # imports from earlier modules: single names, the module itself, everything (`import *`)
+    wild: list[Mod] = []
     for prev in prevs:
-        for nm, kind in rng.sample(exported[prev], min(len(exported[prev]), rng.randint(0, 3))):
+        stmts_prev = []
+        for nm, kind in rng.sample(prev.exported, min(len(prev.exported), rng.randint(0, 3))):
             form = rng.random()
             if form < 0.5:
-                src += f"from {name}.{prev} import {nm}\n"
-                defs.append((nm, "imported-" + kind))
+                stmts_prev.append((f"from {name}.{prev.path} import {nm}\n", [(nm, "imported-" + kind)]))
             elif form < 0.75:
-                src += f"from .{prev} import {nm} as {nm}_x\n"
-                defs.append((nm + "_x", "imported-" + kind))
+                stmts_prev.append((f"from {rel_import(mod, prev)} import {nm} as {nm}_x\n", [(nm + "_x", "imported-" + kind)]))
         if rng.random() < 0.3:
-            src += f"from {name} import {prev} as mod_{prev}\n"
-            defs.append((f"mod_{prev}", "imported-module"))
-            evaluable += [f"mod_{prev}.{nm}" for nm, kind in exported[prev] if kind == "class"][:1]
+            parent = ".".join([name, *prev.parts[:-1]])
+            stmts_prev.append((f"from {parent} import {prev.parts[-1]} as mod_{prev.tag}\n", [(f"mod_{prev.tag}", "imported-module")]))
+            evaluable += [f"mod_{prev.tag}.{nm}" for nm, kind in prev.exported if kind == "class"][:1]
+        if rng.random() < 0.3:
+            target = f"{name}.{prev.path}" if rng.random() < 0.5 else rel_import(mod, prev)
+            # CPython rebinds names in statement order: the wildcard may come before, between or after the single imports
+            star = (f"from {target} import *\n", [(nm, "imported-" + kind) for nm, kind in prev.star])
+            # a name of the wildcard defined here as well: the later statement wins, for CPython by execution order
+            clash = [nm for nm, kind in prev.star if kind in ("function", "value") and not nm.startswith("__")]
+            if clash and rng.random() < 0.25:
+                nm = rng.choice(clash)
+                own = f'def {nm}(shadow):\n    """Own {nm} of {m}."""\n    return 1\n'
+                if rng.random() < 0.5:
+                    stmts_prev.append((own, []))                    # defined first, rebound by the wildcard import
+                    stmts_prev.append(star)
+                else:
+                    stmts_prev.append(star)
+                    stmts_prev.append((own, [(nm, "function")]))    # imported first, rebound by the definition
+            else:
+                stmts_prev.insert(rng.randint(0, len(stmts_prev)), star)
+            wild.append(prev)
+        for text, bound in stmts_prev:
+            src += text
+            for nm, kind in bound:
+                defs = [d for d in defs if d[0] != nm] + [(nm, kind)]
     evaluable += [d for d, k in defs if k == "imported-class"]
     # imports for type checkers only: the names do not exist when the module runs
     if tc_mode:
         if tc_mode == "local":
             src += "TYPE_CHECKING = False\n"
         src += "if typing.TYPE_CHECKING:\n" if tc_mode == "attr" else "if TYPE_CHECKING:\n"
-        cands = [(f"{name}.{p}", nm) for p in prevs for nm, kind in exported[p] if kind == "class"]
-        for mod, nm in rng.sample(cands, min(len(cands), rng.randint(0, 2))) or [rng.choice(GUARDED_EXTERNALS)]:
-            src += f"    from {mod} import {nm} as {nm}_t\n"
+        cands = [(f"{name}.{p.path}", nm) for p in prevs for nm, kind in p.exported if kind == "class" and not nm.startswith("_")]
+        for modname, nm in rng.sample(cands, min(len(cands), rng.randint(0, 2))) or [rng.choice(GUARDED_EXTERNALS)]:
+            src += f"    from {modname} import {nm} as {nm}_t\n"
             deferred += [f"{nm}_t"] * 2
+    head, src = src, ""
     deco = [d for st, d in IDENTITY_DECORATORS.items() if st in lines]
     if use_wraps:
         deco.append(f"{m}_deco")
@@ -279,7 +398,13 @@ def gen_module(rng: random.Random, name: str, m: str, prevs: list[str], exported
     for i in range(rng.randint(2, 5)):
         r = rng.random()
         plan.append((f"{m}_o{i}", "function" if r < 0.4 else "class" if r < 0.75 else "value"))
-    later = [nm.capitalize() for nm, kind in plan if kind == "class"]
+    # names a wildcard import skips unless __all__ lists them
+    if rng.random() < 0.35:
+        plan.append((f"_{m}_p{len(plan)}", rng.choice(["function", "class", "value"])))
+    if rng.random() < 0.15:
+        plan.append(("__version__", "value"))
+    cap = lambda nm: nm.capitalize() if not nm.startswith("_") else "_" + nm[1:].capitalize()  # noqa: E731
+    later = [cap(nm) for nm, kind in plan if kind == "class"]
     for nm, kind in plan:
         sc = Scope(future, evaluable, deferred + later, defaults)
         if kind == "function":
@@ -287,7 +412,7 @@ def gen_module(rng: random.Random, name: str, m: str, prevs: list[str], exported
             src += gen_def(rng, sc, "", nm, None, doc, deco, allow_async=0.15)
             defs.append((nm, "function"))
         elif kind == "class":
-            cname = nm.capitalize()
+            cname = cap(nm)
             bases = []
             classes_here = [d for d, k in defs if k in ("class", "imported-class")]
             if classes_here and rng.random() < 0.6:
@@ -302,22 +427,36 @@ def gen_module(rng: random.Random, name: str, m: str, prevs: list[str], exported
             src += f"{nm}{ann} = {rng.choice(['1', repr('text'), '[1, 2]', 'None', '3.5', '{1: 2}'])}\n"
             defs.append((nm, "value"))
             defaults.append(nm)
-    return src, defs
+    kinds = {d: k.replace("imported-", "") for d, k in defs}
+    imp, top, bottom = gen_all(rng, name, mod, list(kinds), wild)
+    mod.exported = [(d, k) for d, k in kinds.items() if not d.startswith("mod_")]
+    if mod.all is None:
+        mod.star = [(d, k) for d, k in kinds.items() if not d.startswith("_")]
+    else:
+        mod.star = [(d, kinds[d]) for d in dict.fromkeys(mod.all)]
+    return head + imp + top + src + bottom
 
 
 def gen_package(rng: random.Random, name: str) -> dict[str, str]:
     files = {}
-    mods = ["a", "b"] + (["c"] if rng.random() < 0.4 else [])
-    exported: dict[str, list[tuple[str, str]]] = {}
-    for mi, m in enumerate(mods):
-        files[f"{name}/{m}.py"], defs = gen_module(rng, name, m, mods[:mi], exported)
-        exported[m] = [(d, k.replace("imported-", "")) for d, k in defs if not d.startswith("mod_")]
+    mods = [Mod("a", "a"), Mod("b", "b")] + ([Mod("c", "c")] if rng.random() < 0.4 else [])
+    if rng.random() < 0.4:
+        # a sub-package: its modules import from the modules above (`..a`), its __init__ from its own modules (`.x`)
+        mods += [Mod("sub.x", "sx")] + ([Mod("sub.y", "sy")] if rng.random() < 0.4 else []) + [Mod("sub", "s", is_pkg=True)]
+    for mi, mod in enumerate(mods):
+        fname = f"{name}/{mod.path.replace('.', '/')}" + ("/__init__.py" if mod.is_pkg else ".py")
+        files[fname] = gen_module(rng, name, mod, mods[:mi])
     init = f'"""Package {name}."""\n'
-    for m in mods:
-        for nm, kind in rng.sample(exported[m], min(len(exported[m]), 2)):
-            init += f"from {name}.{m} import {nm}\n"
+    top_level = [mod for mod in mods if len(mod.parts) == 1]
+    for mod in mods:
+        stmts = [f"from {name}.{mod.path} import {nm}\n" for nm, kind in rng.sample(mod.exported, min(len(mod.exported), 2 if mod in top_level else 1))]
+        if rng.random() < 0.25:
+            target = f"{name}.{mod.path}" if rng.random() < 0.5 else "." + mod.path
+            stmts.insert(rng.randint(0, len(stmts)), f"from {target} import *\n")
+        init += "".join(stmts)
     # sub-modules imported by the package itself, under their own and under other names
-    for m in mods:
+    for mod in top_level:
+        m = mod.path
         r = rng.random()
         if r < 0.2:
             init += f"from . import {m} as {m}_alias\n"
@@ -331,7 +470,7 @@ def gen_package(rng: random.Random, name: str) -> dict[str, str]:
 
 
 def shards(tier: str, seed: int) -> list[dict]:
-    n = 150 if tier == "quick" else 1600
+    n = 120 if tier == "quick" else 1400
     return [{"count": n} for _ in range(16)]
 
 
@@ -354,6 +493,51 @@ def assigned_names(src: str, class_path: list[str]) -> set[str]:
         elif isinstance(st, ast.ImportFrom):
             out.update((a.asname or a.name) for a in st.names)
     return out
+
+
+def wildcard_sources(src: str, modpath: str, is_pkg: bool) -> list[str]:
+    """Absolute names of the modules a module body imports with ``from X import *``, in statement order."""
+    package = modpath if is_pkg else modpath.rpartition(".")[0]
+    out = []
+    for st in ast.parse(src).body:
+        if isinstance(st, ast.ImportFrom) and any(a.name == "*" for a in st.names):
+            out.append(importlib.util.resolve_name("." * st.level + (st.module or ""), package) if st.level else st.module)
+    return out
+
+
+def observe_wildcard(rec, files: dict, absname: str, srcmod, importer: str) -> None:  # noqa: ANN001
+    """Evidence: which kind of wildcard import was compared. The shape of ``__all__`` is read off the source module's
+    syntax and off the value CPython computed, never off griffe."""
+    rec.count("wildcard_imports_compared")
+    rel = absname.replace(".", "/")
+    text = files.get(rel + "/__init__.py", files.get(rel + ".py", ""))
+    body = ast.parse(text).body if text else []
+    if hasattr(srcmod, "__path__"):
+        rec.count("wildcard_of_package")
+    if importer.count(".") >= 1 and (importer.replace(".", "/") + "/__init__.py" in files or importer.count(".") >= 2):
+        rec.count("wildcard_in_subpackage")
+    if any(isinstance(st, ast.ImportFrom) and any(a.name == "*" for a in st.names) for st in body):
+        rec.count("wildcard_chain")
+    value = getattr(srcmod, "__all__", None)
+    if value is None:
+        rec.count("wildcard_source_all_absent")
+        return
+    rec.count("wildcard_source_all_nonempty" if len(value) else "wildcard_source_all_empty")
+    if any(n.startswith("_") for n in value):
+        rec.count("wildcard_source_all_lists_private")
+    is_all = lambda t: isinstance(t, ast.Name) and t.id == "__all__"  # noqa: E731
+    for st in body:
+        if isinstance(st, ast.AugAssign) and is_all(st.target):
+            rec.count("wildcard_source_all_augmented")
+            break
+    for st in body:
+        rhs = st.value if (isinstance(st, ast.Assign) and any(is_all(t) for t in st.targets)) or (
+            isinstance(st, ast.AnnAssign) and is_all(st.target)) else None
+        if rhs is not None and any(isinstance(n, (ast.Name, ast.Attribute)) for n in ast.walk(rhs)):
+            rec.count("wildcard_source_all_composed")
+            break
+    if isinstance(value, tuple):
+        rec.count("wildcard_source_all_tuple")
 
 
 def _is_type_checking(test: ast.expr) -> bool:
@@ -405,7 +589,23 @@ def import_path(path: str):  # noqa: ANN201
     return _MISSING
 
 
-def compare_external(rec, where: str, sm, dm):  # noqa: ANN001, ANN201
+def external_path(m, pkgname: str):  # noqa: ANN001, ANN201
+    """Path outside the generated package that an alias (possibly through re-exports inside the package) points at."""
+    from _griffe.exceptions import AliasResolutionError, CyclicAliasError
+
+    for _ in range(50):
+        if not m.is_alias:
+            return None
+        if m.target_path.split(".")[0] != pkgname:
+            return m.target_path
+        try:
+            m = m.target
+        except (AliasResolutionError, CyclicAliasError):
+            return None
+    return None
+
+
+def compare_external(rec, where: str, sm, dm, spath: str | None, dpath: str | None):  # noqa: ANN001, ANN201, PLR0911
     """Imports from outside the generated package (never loaded by griffe here): CPython arbitrates.
 
     Both agents alias -> the two target paths must reach the *same object* (``os.path.join`` and ``posixpath.join`` do).
@@ -413,26 +613,26 @@ def compare_external(rec, where: str, sm, dm):  # noqa: ANN001, ANN201
     functions and modules.
     """
     rec.count("external_imports_compared")
-    if sm.is_alias and dm.is_alias:
-        so, do = import_path(sm.target_path), import_path(dm.target_path)
+    if spath and dpath:
+        so, do = import_path(spath), import_path(dpath)
         if so is _MISSING or do is _MISSING or so is not do:
-            return (f"{where}: aliases of an external import reach different objects", dm.target_path, sm.target_path, None, [])
+            return (f"{where}: aliases of an external import reach different objects", dpath, spath, None, [])
         return None
-    if not sm.is_alias:
-        return (f"{where}: only the dynamic agent sees an import from outside the package", dm.target_path, sm.kind.value, None, [])
-    so = import_path(sm.target_path)
+    if not spath:
+        return (f"{where}: only the dynamic agent sees an import from outside the package", dpath, sm.kind.value, None, [])
+    so = import_path(spath)
     if so is _MISSING:
-        return (f"{where}: static alias target does not exist for CPython", None, sm.target_path, None, [])
+        return (f"{where}: static alias target does not exist for CPython", None, spath, None, [])
     if inspect.isclass(so) or inspect.isroutine(so) or inspect.ismodule(so):
         return (f"{where}: imported external {type(so).__name__} is an alias for the static agent only", dm.kind.value,
-                sm.target_path, None, [])
-    if not dm.is_attribute:
+                spath, None, [])
+    if dm.is_alias or not dm.is_attribute:
         return (f"{where}: imported plain value is a {dm.kind.value} for the dynamic agent", dm.kind.value, "attribute", None, [])
     return None
 
 
 def classify(what: str, sobj, dobj, extra: dict) -> tuple[str | None, list[str]]:  # noqa: ANN001
-    tried = ["C17-inspector-variadic-required", "C17-inspector-classmethod-drops-cls"]
+    tried = ["C17-inspector-variadic-required", "C17-inspector-classmethod-drops-cls", "C17-wildcard-misses-side-effect-submodule"]
     if extra.get("mech") == "variadic-required":
         return "C17-inspector-variadic-required", tried
     if extra.get("mech") == "classmethod-cls":
@@ -519,6 +719,45 @@ def walk_compare(rec, files: dict, pkgname: str, sroot, droot):  # noqa: ANN001,
         bound = assigned_names(src, cpath) if src else set()
         snames = dict(s.members)
         dnames = dict(d.members)
+        # names CPython really bound through `from X import *` count as bound by the source (a dunder listed in __all__)
+        pymod = sys.modules.get(s.path) if s.is_module and not cpath else None
+        side_effect: set[str] = set()
+        if pymod is not None and src:
+            for absname in wildcard_sources(src, s.path, rel + "/__init__.py" in files):
+                srcmod = sys.modules.get(absname)
+                if srcmod is None:
+                    continue
+                observe_wildcard(rec, files, absname, srcmod, s.path)
+                offered = getattr(srcmod, "__all__", None)
+                if offered is None:
+                    offered = [k for k in vars(srcmod) if not k.startswith("_")]
+                taken = {k for k in offered if k in vars(pymod)}
+                rec.count("wildcard_names_bound", len(taken))
+                for k in taken & assigned_names(src, []):
+                    if inspect.isroutine(vars(pymod)[k]) or inspect.isclass(vars(pymod)[k]):
+                        # the module also binds the name itself: who wins is decided by CPython's execution order
+                        rec.count("wildcard_name_also_bound_locally")
+                        rec.count("wildcard_wins_over_local" if vars(pymod)[k] is vars(srcmod).get(k) else "local_wins_over_wildcard")
+                # known mechanism: a package without __all__ also offers the sub-modules the import system attached to it
+                # as a side effect of some earlier import (no statement of its __init__ binds the name); CPython binds
+                # them in the importing module, the static agent only exposes sub-modules the package imports by name
+                if hasattr(srcmod, "__path__") and getattr(srcmod, "__all__", None) is None:
+                    srcsrc = files.get(absname.replace(".", "/") + "/__init__.py", "")
+                    stated = assigned_names(srcsrc, []) if srcsrc else set()
+                    for k in sorted(taken - stated - bound):
+                        obj = vars(pymod)[k]
+                        if inspect.ismodule(obj) and obj.__name__ == f"{absname}.{k}" and vars(srcmod).get(k) is obj \
+                                and k in dnames and k not in snames:
+                            side_effect.add(k)
+                bound |= taken
+            for k in side_effect:
+                del dnames[k]
+            if side_effect:
+                rec.count("wildcard_side_effect_submodules")
+                deferred = deferred or (
+                    f"{s.path}: wildcard import of a package without __all__ misses sub-modules bound as an import side effect",
+                    {"dynamic_and_cpython_only": sorted(side_effect)}, None, "C17-wildcard-misses-side-effect-submodule",
+                    ["C17-wildcard-misses-side-effect-submodule"])
         # allowed: interpreter-provided dunders the source does not assign
         for n in list(dnames):
             if n.startswith("__") and n.endswith("__") and n not in bound:
@@ -539,11 +778,19 @@ def walk_compare(rec, files: dict, pkgname: str, sroot, droot):  # noqa: ANN001,
         if set(snames) != set(dnames):
             return (f"member names of {s.path} differ", {"static_only": sorted(set(snames) - set(dnames)),
                                                              "dynamic_only": sorted(set(dnames) - set(snames))}, None, None, [])
+        # third leg for module bodies: the namespace CPython built by running the module
+        if pymod is not None and src:
+            rec.count("module_namespaces_vs_cpython")
+            cnames = {k for k in vars(pymod) if not (k.startswith("__") and k.endswith("__") and k not in bound)} - side_effect
+            if set(snames) != cnames:
+                return (f"static member names of {s.path} differ from the namespace CPython built",
+                        {"static_only": sorted(set(snames) - cnames), "cpython_only": sorted(cnames - set(snames))}, None, None, [])
         for n in sorted(snames):
             sm, dm = snames[n], dnames[n]
             rec.count("members_compared")
-            if any(m.is_alias and m.target_path.split(".")[0] != pkgname for m in (sm, dm)):
-                res = compare_external(rec, f"{s.path}.{n}", sm, dm)
+            spath, dpath = external_path(sm, pkgname), external_path(dm, pkgname)
+            if spath or dpath:
+                res = compare_external(rec, f"{s.path}.{n}", sm, dm, spath, dpath)
                 if res:
                     return res
                 continue
